@@ -7,9 +7,11 @@ CONSTANTS
   RecheckAtApply = TRUE
   KeepTimers = FALSE
   CountAllWit = FALSE
+  RetryBlind = FALSE
   MaxOps = 12
   MaxPend = 1
   MaxWaits = 2
+  MaxParks = 1
   EpochSels = {"cur", "old", "next"}
   PairSels = {"cur", "sc", "old", "next"}
   WaitModes = {"none", "good", "stale", "wrong"}
